@@ -6,7 +6,7 @@ import UralModel.Model.HostnameTrieSetUrl
 `{"f":"hts","adds":[hostname…],"queries":[hostname|null…],"puny":[[label,decoded]…],"special":[hostname…]}`
 → `{"laws": b, "states": […]}` with one state per prefix of the add sequence (after 0, 1, … n
 adds): `{"len":…, "iter":[…], "match":[…]}`; `laws` says whether the `puny` table satisfies
-`PunyLaws.decoded` (the hypothesis of the punycode theorems).
+`PunyLaws` (`decoded`, `no_dot`, `clean`: the hypotheses of the punycode / iteration theorems).
 `queries` are the hostnames the real `safe_urlsplit(url).hostname` produced (`null` = `None`);
 `puny` is the table of the real `attempt_to_decode_idna` on the labels it is called with;
 `special` lists the hostnames on which the real `is_special_host` is true.
@@ -69,7 +69,10 @@ def history (j : Json) : Json :=
     let t' := add special puny acc.1 h
     (t', observe special puny t' queries :: acc.2))
     (new, [observe special puny new queries])
-  let laws := table.all fun (l, d) => !(hasHeader l) || d == l || !(hasHeader d)
+  -- PunyLaws.decoded, .no_dot, .clean on the real codec's answers for the labels of the case
+  let laws := table.all fun (l, d) => !(hasHeader l) ||
+    ((d == l || !(hasHeader d)) && (l.contains '.' || !(d.contains '.')) &&
+      (!(cleanLabel l) || cleanLabel d))
   let base := [("laws", jbool laws), ("states", jlist outs.reverse)]
   let extra :=
     if urls.isEmpty then []
